@@ -1,6 +1,7 @@
 package fakes
 
 import (
+	"time"
 	"context"
 	"errors"
 	"fmt"
@@ -35,6 +36,10 @@ type ProcCfg struct {
 	OpenErr     string `json:"open_err,omitempty"`
 	// OpenErrGen: Open fails only for this generation (C13: failing reconfigure)
 	OpenErrGen  string `json:"open_err_gen,omitempty"`
+	// OpenDelayGen / OpenDelayMs: Open of this generation takes this long (a reconfigure whose caller gives up
+	// while the node is already opening the new processor)
+	OpenDelayGen string `json:"open_delay_gen,omitempty"`
+	OpenDelayMs  int    `json:"open_delay_ms,omitempty"`
 	TeardownErr string `json:"teardown_err,omitempty"`
 	// Scope is filled in by the world: "all" or the destination id the processor belongs to.
 	Scope string `json:"scope,omitempty"`
@@ -72,6 +77,10 @@ func (p *Proc) Configure(_ context.Context, c config.Config) error {
 }
 
 func (p *Proc) Open(context.Context) error {
+	if p.Cfg.OpenDelayMs > 0 && p.Cfg.OpenDelayGen == p.gen {
+		p.W.Log.Add("ProcOpening", "proc", p.Cfg.ID, "gen", p.gen)
+		time.Sleep(time.Duration(p.Cfg.OpenDelayMs) * time.Millisecond)
+	}
 	p.sh.mu.Lock()
 	defer p.sh.mu.Unlock()
 	if p.Cfg.OpenErr != "" || (p.Cfg.OpenErrGen != "" && p.Cfg.OpenErrGen == p.gen) {
